@@ -578,7 +578,14 @@ class Harness:
             form = self.tagc % 3
 
             def fn():
-                if form == 0:
+                if self.kind == "FPCal":
+                    if form == 0:
+                        b.platforms = b.platforms
+                    elif form == 1:
+                        b.platforms = ((c, p) for c, p in b)
+                    else:
+                        b.platforms = iter(list(b.platforms))
+                elif form == 0:
                     b.tracks = b.tracks
                 elif form == 1:
                     b.tracks = (t for t in b.tracks)
